@@ -32,6 +32,7 @@ def main(tier):
     rep.attempt(_frame.sphere_projection, P, rep)     # sphere grid: nodes are moved along their ray onto the requested radius
     rep.attempt(consumers.sphere_layers, P, rep)      # ... each layer from a fresh copy of the unit shell, at radius inner + (outer-inner) i/n
     rep.attempt(consumers.chunk_bounds_validation, P, rep)   # 'all bounds': impossible chunks are refused, as the messages promise
+    rep.attempt(consumers.shell_radius_checks, P, rep)       # chunk, annulus and sphere agree on refusing inner >= outer radius
     consumers.option_loop_discipline(P, rep, "gwb-grid", "GRID.options")
     rep.assumptions.append("of the four grid generators the Cartesian one is decided (node positions, connectivity); of the sphere generator the "
                            "bilinear block patch and the projection onto the radius; the chunk generator is decided (lattice, conversion, "
